@@ -108,11 +108,9 @@ func (fr *Frame) addrOnlyUses(v ssa.Value, depth int) bool {
 			if callee == nil {
 				return false
 			}
-			if callee.Pkg == nil || !fr.vc.P.repoPkgs[callee.Pkg.Pkg] {
-				// external: only with an assumed contract
-				if fr.vc.P.specFor(fr.vc.P.fnKeys[callee], "") == nil {
-					return false
-				}
+			// only callees under contract (which are trusted/checked not to retain the pointer)
+			if sp := fr.vc.P.specFor(fr.vc.P.fnKeys[callee], ""); sp == nil || sp.Inline {
+				return false
 			}
 			if len(callee.FreeVars) > 0 {
 				return false
@@ -786,8 +784,8 @@ func (vc *VC) nilCheck(fr *Frame, guard string, pv Val, in ssa.Instruction) {
 		if pv.A.Kind != aHeap {
 			return
 		}
-		// known allocations need no check
-		if pv.A.Fresh {
+		// known allocations need no check; interior addresses were checked when they were formed
+		if pv.A.Fresh || len(pv.A.Path) > 0 {
 			return
 		}
 	}
@@ -934,6 +932,14 @@ func (vc *VC) execInstr(fr *Frame, st *State, reach string, instr ssa.Instructio
 		v := vc.operand(fr, x.X)
 		nv := v
 		nv.T = x.Type()
+		if st1, _ := structOf(x.X.Type()); st1 != nil && vc.S.sortOf(x.X.Type()) != vc.S.sortOf(x.Type()) {
+			// conversion between distinct named struct types with identical underlying types
+			var fs []string
+			for i := 0; i < st1.NumFields(); i++ {
+				fs = append(fs, vc.S.fieldSel(x.X.Type(), i, vc.valTerm(v)))
+			}
+			nv = Val{T: x.Type(), S: vc.S.mkStruct(x.Type(), fs)}
+		}
 		if v.A != nil {
 			// pointer conversion between types with identical underlying types
 			if pt, ok := under(x.Type()).(*types.Pointer); ok && len(v.A.Path) == 0 {
@@ -1026,11 +1032,19 @@ func (vc *VC) execInstr(fr *Frame, st *State, reach string, instr ssa.Instructio
 		}
 		st.defers = append(st.defers, deferred{call: x, args: args, fnv: fv, fr: fr})
 	case *ssa.RunDefers:
-		for i := len(st.defers) - 1; i >= 0; i-- {
-			d := st.defers[i]
+		var mine, rest []deferred
+		for _, d := range st.defers {
+			if d.fr == fr {
+				mine = append(mine, d)
+			} else {
+				rest = append(rest, d)
+			}
+		}
+		st.defers = rest
+		for i := len(mine) - 1; i >= 0; i-- {
+			d := mine[i]
 			vc.execCall(fr, st, reach, d.call, d.call.Common(), d.args, &d.fnv)
 		}
-		st.defers = nil
 	case *ssa.Call:
 		res := vc.execCall(fr, st, reach, x, x.Common(), nil, nil)
 		fr.regs[x] = res
@@ -1256,7 +1270,16 @@ func (vc *VC) execSlice(fr *Frame, st *State, reach string, x *ssa.Slice) {
 		fr.regs[x] = Val{T: x.Type(), S: vc.define(x.Name(), "Str", "(ssub "+s+" "+lo+" "+hi+")")}
 	case *types.Pointer:
 		at, ok := under(u.Elem()).(*types.Array)
-		if !ok || x.Low != nil || x.High != nil {
+		hiOK := x.High == nil
+		hiLen := int64(0)
+		if ok {
+			hiLen = at.Len()
+		}
+		if c, isC := x.High.(*ssa.Const); isC && ok && c.Int64() <= at.Len() {
+			hiOK = true
+			hiLen = c.Int64()
+		}
+		if !ok || x.Low != nil || !hiOK {
 			vc.unsupportedf("%s: slice of %s", fr.key, x.X.Type())
 			fr.regs[x] = Val{T: x.Type(), S: vc.fresh("slice", "Slice")}
 			return
@@ -1273,7 +1296,7 @@ func (vc *VC) execSlice(fr *Frame, st *State, reach string, x *ssa.Slice) {
 		hn := vc.arrHeapName(at.Elem())
 		contents := vc.readBase(st, a)
 		vc.setHeap(st, hn, "(store "+vc.heap(st, hn)+" "+ref+" "+contents+")")
-		fr.regs[x] = Val{T: x.Type(), S: vc.define(x.Name(), "Slice", fmt.Sprintf("(mk_slice %s %d %d)", ref, at.Len(), at.Len()))}
+		fr.regs[x] = Val{T: x.Type(), S: vc.define(x.Name(), "Slice", fmt.Sprintf("(mk_slice %s %d %d)", ref, hiLen, at.Len()))}
 		// NOTE: later writes through the array pointer are not reflected in the slice; the SSA builder
 		// always completes the stores before slicing for composite literals and variadic packs.
 	case *types.Slice:
